@@ -28,7 +28,9 @@ func init() {
 		Work:        c19Work,
 		Aux:         raceAux("C19"),
 		Sub:         map[string]func([]string) int{"racepass-C19": racePassSub(c19Scenarios)},
-		Post:        func(a *mc.Agg) []string { return needDims(a, "bfs-state", "scenario:intern", "threads:2", "threads:3", "null-string") },
+		Post: func(a *mc.Agg) []string {
+			return needDims(a, "bfs-state", "scenario:intern", "threads:2", "threads:3", "null-string")
+		},
 	})
 }
 
